@@ -71,6 +71,13 @@ CHECKS = {
             "included, both step signs consistent with decay): an accepted step never increases |y| and reproduces |R(z')| for the accepted h'; in addition "
             "|R|<=1 on a 45x44 log-polar grid and no pole in the closed left half-plane, computed in extended precision from the class tableau.",
             "Exploration; tolerances scaled to eps*|lambda| so that Newton can converge; raises are 'no acceptance' and only counted.", "4/C11"),
+    "C12": ("fault_enumeration", "crash-point enumeration: fault injected at every k-th invocation of a user callable; offline comparison with the unfaulted reference run",
+            "A counting shim wraps rhs, callbacks and event functions; for each configuration (6 method families x directions x dense on/off, events + callback) "
+            "the run is repeated with an exception (custom, ZeroDivisionError, FloatingPointError, KeyboardInterrupt, ValueError) at EVERY invocation index; "
+            "checked: exception type and cause identity, status, recorded rows bit-equal to a prefix of the reference run, dense output covering exactly those "
+            "rows, events a prefix, resume reaching tf with C03/C06 oracles and slope join, reset + rerun bit-equal to a fresh run; thorough adds configurations "
+            "and double faults.",
+            "Exhaustive over invocation positions of the enumerated short runs (N<=~450 each); call sites classified by frame walk; asynchronous interrupts not injected.", "4/C12"),
 }
 
 NOT_YET = {}
